@@ -42,7 +42,7 @@ const (
 type Node struct {
 	ID    int   `json:"id"`
 	Preds []int `json:"preds"` // increasing; 0 = START
-	Fail  int   `json:"fail,omitempty"` // 0 ok, 1 error, 2 panic, 3 the state post-handler returns an error
+	Fail  int   `json:"fail,omitempty"` // 0 ok, 1 error, 2 panic, 3 the state post-handler returns an error, 4 the state pre-handler returns an error (outside the Coq models)
 	Pre   bool  `json:"pre,omitempty"`  // the node has a state pre-handler (taskManager.submit runs it: preProcessor)
 	Post  bool  `json:"post,omitempty"` // the node has a state post-handler (taskManager.waitOne runs it: postProcessor)
 	Slow  bool  `json:"slow,omitempty"` // body sleeps 25-40 ms (eager: widen the return window)
@@ -167,6 +167,7 @@ type built struct {
 	anc    map[int]bool
 	byID   map[int]*Node
 	buildE string
+	preFail bool // some node's pre-handler fails: submit returns before the step is started
 }
 
 func (b *built) body(n *Node) func(ctx context.Context, in map[string]any) (map[string]any, error) {
@@ -229,6 +230,9 @@ func (b *built) nodeOpts(n *Node) []compose.GraphAddNodeOpt {
 		opts = append(opts, compose.WithStatePreHandler(func(ctx context.Context, in map[string]any, st *hstate) (map[string]any, error) {
 			st.calls++
 			atomic.AddInt32(&b.rsOf(ctx).pre[n.ID], 1)
+			if n.Fail == 4 {
+				return nil, errors.New("pre-handler failure")
+			}
 			return in, nil
 		}))
 	}
@@ -265,6 +269,9 @@ func build(c *Case) *built {
 		b.byID[n.ID] = n
 		if n.ID > b.maxID {
 			b.maxID = n.ID
+		}
+		if n.Fail == 4 {
+			b.preFail = true
 		}
 	}
 	// ancestors of END (data edges, and the branches that decide whether an ancestor runs)
@@ -422,7 +429,7 @@ func (b *built) once(seed uint64, traced bool) *runObs {
 				}
 				// a task whose pre-handler has run (submit) has been handed to a goroutine that may
 				// not have reached the node body yet
-				if atomic.LoadInt32(&rs.starts[id]) < atomic.LoadInt32(&rs.pre[id]) {
+				if !b.preFail && atomic.LoadInt32(&rs.starts[id]) < atomic.LoadInt32(&rs.pre[id]) {
 					busy = true
 				}
 			}
@@ -517,8 +524,11 @@ func (b *built) once(seed uint64, traced bool) *runObs {
 			n := &b.c.Nodes[i]
 			st, pr, po := atomic.LoadInt32(&rs.starts[n.ID]), atomic.LoadInt32(&rs.pre[n.ID]), atomic.LoadInt32(&rs.post[n.ID])
 			switch {
-			case n.Pre && pr != st:
+			case n.Pre && pr != st && !(b.preFail && o.Class == "err" && pr == st+1):
+				// (a submit that fails on a pre-handler has pre-processed the tasks before it, once, and starts none)
 				o.handler = fmt.Sprintf("node n%d was executed %d time(s), its state pre-handler %d time(s)", n.ID, st, pr)
+			case n.Fail == 4 && st != 0:
+				o.handler = fmt.Sprintf("node n%d was executed although its state pre-handler failed", n.ID)
 			case n.Post && po > st:
 				o.handler = fmt.Sprintf("node n%d was executed %d time(s), its state post-handler %d time(s)", n.ID, st, po)
 			case n.Post && o.Class == "val" && po != st && (b.c.Mode != "eager" || b.anc[n.ID]):
@@ -769,6 +779,27 @@ func (engine) Generate(r *lib.Rng, tier string, i int) any {
 							setFail(c, g, failKind(g))
 						}
 					}
+				}
+			}
+		}
+	}
+	// a state pre-handler that fails (submit returns before anything of that step is started): one
+	// handlers case in six, instead of the other failures; such cases are outside the Coq models
+	if handlers && r.Chance(1, 6) {
+		for k := range c.Nodes {
+			c.Nodes[k].Fail = 0
+		}
+		var cand []int
+		for _, n := range c.Nodes {
+			if n.ID != idEnd && (c.Mode != "eager" || b[n.ID] || r.Chance(1, 3)) {
+				cand = append(cand, n.ID)
+			}
+		}
+		if len(cand) > 0 {
+			f := cand[r.Intn(len(cand))]
+			for k := range c.Nodes {
+				if c.Nodes[k].ID == f {
+					c.Nodes[k].Fail, c.Nodes[k].Pre = 4, true
 				}
 			}
 		}
@@ -1301,6 +1332,10 @@ func (engine) Run(ci any) lib.Result {
 		obsS[i] = d.coq()
 	}
 	switch {
+	case b.preFail:
+		// a failing state pre-handler is outside the order-side models: only the protocol traces go to Coq
+		res.CoqTerm = fmt.Sprintf("mkcase %d [] [] [%s] [%s]", modeN, strings.Join(obsS, ";"), strings.Join(traces, ";\n  "))
+		res.Tags = append(res.Tags, "failing:pre-handler")
 	case len(c.Branches) == 0:
 		res.CoqTerm = fmt.Sprintf("mkcase %d %s [] [%s] [%s]", modeN, c.coqGraph(), strings.Join(obsS, ";"), strings.Join(traces, ";\n  "))
 	case c.Mode == "eager":
